@@ -27,7 +27,7 @@ $(foreach o,$(C17_H8_ORDERS),$(eval $(call C17_INST_RULE,2,8,$(o),2)))
 $(C17_OBJDIR):
 	mkdir -p $(C17_OBJDIR)
 
-$(C17_OBJDIR)/driver.o: $(C17_DIR)/c17_hashtable.c $(C17_DIR)/c17_inst.h $(C17_REPODEPS) $(GEN)/def/generated/cjet_config.h | $(C17_OBJDIR)
+$(C17_OBJDIR)/driver.o: $(C17_DIR)/c17_hashtable.c $(C17_DIR)/c17_core.h $(C17_DIR)/c17_search.h $(C17_DIR)/c17_inst.h $(C17_REPODEPS) $(GEN)/def/generated/cjet_config.h | $(C17_OBJDIR)
 	$(CC) $(CFLAGS) -Wall -Wextra -I$(C17_DIR) -c $< -o $@
 
 .PHONY: c17
